@@ -138,6 +138,7 @@ class World:
         objs = {}
         for m, rec in self.models.items():
             walk(rec["model"], m, m, objs, self.role_of)
+            walk(rec["model3d"], m + "3d", m, objs, self.role_of)
         inputs = {k: hashlib.sha1(np.ascontiguousarray(v).tobytes()).hexdigest() + str(v.shape)
                   for k, v in self.inputs.items()}
         return objs, inputs
@@ -152,6 +153,16 @@ class World:
             model = vc.TransformedModel(model, t["transform"], t["inverse"], t["jacobian"], precision_factor=0.1,
                                         random_state=11)
         self.models[m] = dict(model=model, getter=getter, fitdesc=fd, fitted=False)
+        # a 3-D model of the same 'owner' (the getters are all 2-D; n-D contours use the sphere-point relaxation)
+
+        def lin(x, a=1.0, b=0.3):
+            return a + b * x
+
+        DF = vc.DependenceFunction
+        self.models[m]["model3d"] = vc.GlobalHierarchicalModel([
+            {"distribution": vc.WeibullDistribution(alpha=2.0, beta=1.6, gamma=0.3)},
+            {"distribution": vc.LogNormalDistribution(f_sigma=0.3), "conditional_on": 0, "parameters": {"mu": DF(lin)}},
+            {"distribution": vc.WeibullDistribution(f_beta=2.0, f_gamma=0.0), "conditional_on": 1, "parameters": {"alpha": DF(lin)}}])
         self.inputs[f"data_{m}"] = self.data_for(getter).copy()
         rng = np.random.default_rng(self.seed + len(m))
         d = self.inputs[f"data_{m}"]
@@ -242,12 +253,22 @@ class World:
                                       [ln.get_xydata().ravel() for ax in np.ravel(axes) for ln in ax.get_lines()])
             finally:
                 plt.close("all")
+        if kind in ("iform3d", "isorm3d", "pdf3d", "sample3d"):
+            m3 = rec["model3d"]
+            if kind == "iform3d":
+                return vc.IFORMContour(m3, 0.05, n_points=14).coordinates
+            if kind == "isorm3d":
+                return vc.ISORMContour(m3, 0.05, n_points=11).coordinates
+            if kind == "pdf3d":
+                return m3.pdf(np.c_[x, x[:, :1] + 0.5])
+            return m3.draw_sample(300, random_state=5)
         if kind == "tpdf":
             return model.pdf(x)
         raise Machinery(f"unknown evaluation kind {kind}")
 
 
-EVALS_ANY = ["pdf", "cdf_icdf", "sample", "marginal_icdf", "iform", "isorm", "hdc", "ds", "and", "or", "design", "plot", "save"]
+EVALS_ANY = ["pdf", "cdf_icdf", "sample", "marginal_icdf", "iform", "isorm", "hdc", "ds", "and", "or", "design", "plot", "save",
+             "iform3d", "isorm3d", "pdf3d", "sample3d"]
 EVALS_FITTED = ["plot_dep", "plot_quantiles"]
 
 
@@ -305,6 +326,8 @@ def replay_history(vc, rid, hist, conc, seed, tmp):
         a, b = {}, {}
         walk(w.models["A"]["model"], "A", "A", a, w.role_of)
         walk(w.models["B"]["model"], "B", "B", b, w.role_of)
+        walk(w.models["A"]["model3d"], "A3d", "A", a, w.role_of)
+        walk(w.models["B"]["model3d"], "B3d", "B", b, w.role_of)
         for oid in set(a) & set(b):
             if isinstance(a[oid][4], tuple):
                 continue  # immutable (interned constants such as (0, None)); mutable members are walked themselves
@@ -329,7 +352,7 @@ def key_of(hist, conc):
 def run(ctx):
     vc = import_virocon()
     ctx.rule = ("TLC enumerates every history of length 6 over {new, fit, eval e1, eval e2} x {A, B}; a seeded subset is replayed with "
-                "A, B from the six predefined getters (same or different getter) and e1, e2 from 15 evaluation kinds (pdf, cdf/icdf/pdf of "
+                "A, B from the six predefined getters (same or different getter) and e1, e2 from 19 evaluation kinds (incl. 3-D IFORM / ISORM / pdf / sampling) (pdf, cdf/icdf/pdf of "
                 "the distributions, seeded sampling, marginal_icdf, IFORM, ISORM, HDC, direct sampling / AND / OR with supplied sample, design "
                 "conditions, plots, save); distinct = (history, concretisation); non-trivial = contains an evaluation or a fit")
     ctx.trusted = ["TLC evaluating PurityOps / Trace_C19", "harness fingerprint walk over __dict__ / list / dict / tuple / ndarray / "
@@ -344,7 +367,7 @@ def run(ctx):
     hists = ctx.generate("Purity", "Gen_Purity.cfg", timeout=1200)
     hists = [h for h in hists if sum(1 for x in h if x["op"] != "new") >= 3]
     rng = np.random.default_rng(ctx.seed + 19)
-    nrep = ctx.pick(60, 700)
+    nrep = ctx.pick(100, 800)
     idx = rng.choice(len(hists), size=min(nrep, len(hists)), replace=False)
     tmp = ctx.work / "files"
     tmp.mkdir(exist_ok=True)
